@@ -1,5 +1,328 @@
-"""tpref22 -- J1939-22 (FD) reference-peer harnesses for C03 / C09 (built after the J1939-21 ones)."""
+"""tpref22 -- one real J1939-22 stack against an independent FD reference peer (C03 wire format, C09 flow control).
+
+The FD reference (jv/ref/tp22.py) is limited to the fields the property enumerates: identifier fields, control and
+session nibbles, 24-bit size and segment fields, window byte, little-endian PGN, 1-based in-order segment numbers,
+0xFF padding of the last FD.TP.DT, legal FD lengths.  Reserved / assurance-data bytes are not compared."""
+from fractions import Fraction
+
+from ..ref import ids, tp21, tp22
+from ..runner import Job
+from ..symx import sym_eq_seq, sym_and, sym_or, sym_not, T, concretize
+from .. import world as W
+from .common import sym_payload, PROTOCOL_PF_FD
+from .tpref import S_ADDR, P_ADDR, EPS, REPLY, HOLD, DTGAP, frame_id_claim
+
+BAMGAP = (Fraction(10, 1000), Fraction(195, 1000))     # FD BAM spacing of the reference originator 10..200 ms
+
+
+def mk_world(ex, wa, rts_cts_interval=None, bam_interval=None):
+    w = W.World(ex, mode='timed', eps_range=EPS)
+    kw = {}
+    if rts_cts_interval is not None:
+        kw['minimum_tp_rts_cts_dt_interval'] = Fraction(rts_cts_interval)
+    if bam_interval is not None:
+        kw['minimum_tp_bam_dt_interval'] = Fraction(bam_interval)
+    n = w.add_node('S', dll='j1939-22', max_cmdt_packets=wa, **kw)
+    ca = n.add_ca(S_ADDR)
+    rx = []
+    ca.subscribe(lambda prio, pgn, sa, ts, data: (w.callback_fired(), rx.append({'prio': prio, 'pgn': pgn, 'sa': sa, 'data': list(data), 't': w.now})))
+    return w, n, ca, rx
+
+
+def kind_of(f):
+    fld = ids.id_fields(f['id'])
+    if bool(fld['pf'] == tp22.PF_CM):
+        return 'cm'
+    if bool(fld['pf'] == tp22.PF_DT):
+        return 'dt'
+    return 'other'
+
+
+def cm_fields(d):
+    return {'ctrl': d[0] % 16, 'session': d[0] // 16, 'size': d[1] + d[2] * 256 + d[3] * 65536,
+            'seg': d[4] + d[5] * 256 + d[6] * 65536, 'b7': d[7], 'pgn': d[9] + d[10] * 256 + d[11] * 65536}
+
+
+def inject(w, n, pf, data):
+    w.inject(n, tp21.can_id(7, pf, S_ADDR, P_ADDR), data, fd=True)
+
+
+# --------------------------------------------------------------------------- stack originates RTS/CTS
+def h_orig_cmdt(ex, prop, L, holds=(0,), interval=None, windows='sym'):
+    c03, c09 = prop == 'C03', prop == 'C09'
+    tag = 'c03' if c03 else 'c09'
+    wa = ex.fresh_int('win_stack', 1, 255) if windows == 'sym' else windows
+    w, n, ca, rx = mk_world(ex, wa, rts_cts_interval=interval)
+    dp = ex.fresh_int('dp', 0, 1)
+    prio = ex.fresh_int('prio', 0, 7)
+    pf = ex.fresh_int('pf', 0, 239)
+    for p in PROTOCOL_PF_FD:
+        ex.assume(pf != p)
+    payload = sym_payload(ex, 'b', L)
+    nseg = tp22.nsegments(L)
+    pgn0 = dp * 65536 + pf * 256
+    st = {'phase': 'rts', 'got': 0, 'granted': None, 'in_window': 0, 'grant_no': 0, 'cleared': False, 'limit': None,
+          'done': False, 'last_dt': None, 'after': 0, 'session': None, 'holds_left': None, 'eoms': 0}
+
+    def send_cts():
+        remaining = nseg - st['got']
+        k = st['grant_no']
+        if st['holds_left'] is None:
+            st['holds_left'] = holds[k] if k < len(holds) else 0
+        if st['holds_left'] > 0:
+            st['holds_left'] -= 1
+            st['cleared'] = False
+            inject(w, n, tp22.PF_CM, tp22.cm_frame(tp22.CTS, st['session'], 0xFFFFFF, st['got'] + 1, 0, 0, pgn0))
+            w.after(ex.fresh_real('hold_gap', HOLD[0], HOLD[1]), send_cts, 'peer')
+            return
+        st['holds_left'] = None
+        grant = ex.fresh_int('grant%d' % k, 1, remaining)
+        ex.assume(grant <= st['limit'])
+        st.update(granted=grant, in_window=0, cleared=True)
+        st['grant_no'] += 1
+        inject(w, n, tp22.PF_CM, tp22.cm_frame(tp22.CTS, st['session'], 0xFFFFFF, st['got'] + 1, grant, 0, pgn0))
+
+    def on_frame(f):
+        if f['src'] != 'S':
+            return
+        k = kind_of(f)
+        d = f['data']
+        if st['done']:
+            st['after'] += 1
+            return
+        if c03:
+            ex.claim('c03.fd.legal_length', len(d) in tp22.FD_LENGTHS and f['fd'] is True, {'len': len(d)})
+        if st['phase'] == 'rts':
+            cm = cm_fields(d)
+            if c03:
+                ex.claim('c03.fd.orig.first_frame_is_cm', k == 'cm')
+                frame_id_claim(ex, 'c03.fd.orig.rts.id', f, prio, tp22.PF_CM, P_ADDR, S_ADDR)
+                ex.claim('c03.fd.orig.rts.fields', sym_and(len(d) == 12, cm['ctrl'] == tp22.RTS, cm['size'] == L, cm['seg'] == nseg,
+                                                           cm['b7'] >= 1, cm['pgn'] == pgn0), {'data': d})
+            st['session'] = concretize(cm['session'])
+            st['limit'] = cm['b7']
+            st['phase'] = 'data'
+            w.after(ex.fresh_real('reply', REPLY[0], REPLY[1]), send_cts, 'peer')
+            return
+        if k == 'dt':
+            if c09:
+                ex.claim('c09.fd.orig.no_dt_without_clearance', st['cleared'] is True, {'got': st['got']})
+                if st['cleared']:
+                    ex.claim('c09.fd.orig.at_most_granted', st['in_window'] + 1 <= st['granted'])
+                if interval is not None and st['last_dt'] is not None and st['in_window'] > 0:
+                    ex.claim('c09.fd.orig.cmdt_min_interval', f['t'] - st['last_dt'] >= Fraction(interval))
+            st['last_dt'] = f['t']
+            if c03:
+                frame_id_claim(ex, 'c03.fd.orig.dt.id', f, 7, tp22.PF_DT, P_ADDR, S_ADDR)
+                ex.claim('c03.fd.orig.dt.bytes', sym_eq_seq(d, tp22.dt_frame(st['session'], st['got'] + 1, payload)), {'seg': st['got'] + 1, 'len': len(d)})
+            st['got'] += 1
+            st['in_window'] += 1
+            if st['got'] < nseg and st['cleared'] and bool(st['in_window'] == st['granted']):
+                st['cleared'] = False
+                w.after(ex.fresh_real('reply', REPLY[0], REPLY[1]), send_cts, 'peer')
+            return
+        if k == 'cm' and st['got'] == nseg and bool(cm_fields(d)['ctrl'] == tp22.EOMS):
+            cm = cm_fields(d)
+            st['eoms'] += 1
+            if c03:
+                frame_id_claim(ex, 'c03.fd.orig.eoms.id', f, 7, tp22.PF_CM, P_ADDR, S_ADDR)
+                ex.claim('c03.fd.orig.eoms.fields', sym_and(len(d) == 12, cm['session'] == st['session'], cm['size'] == L, cm['seg'] == nseg, cm['pgn'] == pgn0), {'data': d})
+
+            def ack():
+                st['done'] = True
+                inject(w, n, tp22.PF_CM, tp22.cm_frame(tp22.EOMA, st['session'], L, nseg, 0xFF, 0xFF, pgn0))
+            w.after(ex.fresh_real('reply', REPLY[0], REPLY[1]), ack, 'peer')
+            return
+        ex.claim(tag + '.fd.orig.unexpected_frame', False, {'data': d[:12], 'kind': k})
+
+    w.frame_hooks.append(on_frame)
+    w.run(until=T('1/100'))
+    r = ca.send_pgn(dp, pf, P_ADDR, prio, list(payload))
+    ex.claim('accepted', r is True)
+    w.run(until=w.now + T(5) + T('7/10') * (nseg + sum(holds)))
+    ex.claim(tag + '.fd.orig.all_segments_sent', st['got'] == nseg and st['eoms'] == 1, {'got': st['got'], 'nseg': nseg, 'eoms': st['eoms']})
+    ex.claim(tag + '.fd.orig.session_closed', st['done'] and st['after'] == 0, {'after': st['after']})
+    # the session number is free again: a second transfer is accepted
+    ex.claim(tag + '.fd.orig.next_transfer_accepted', ca.send_pgn(dp, pf, P_ADDR, prio, [1] * 70) is True)
+    ex.claim('job_thread_alive', n.job_alive())
+    ex.observe('bus', [[f['id'], f['data']] for f in w.log])
+    ex.witness()
+
+
+# --------------------------------------------------------------------------- peer originates RTS/CTS
+def h_resp_cmdt(ex, prop, L, windows='sym', session=0):
+    c03, c09 = prop == 'C03', prop == 'C09'
+    tag = 'c03' if c03 else 'c09'
+    wa = ex.fresh_int('win_stack', 1, 255) if windows == 'sym' else windows
+    w, n, ca, rx = mk_world(ex, wa)
+    dp = ex.fresh_int('dp', 0, 1)
+    pf = ex.fresh_int('pf', 0, 239)
+    for p in PROTOCOL_PF_FD:
+        ex.assume(pf != p)
+    payload = sym_payload(ex, 'b', L)
+    nseg = tp22.nsegments(L)
+    pgn0 = dp * 65536 + pf * 256
+    limit = ex.fresh_int('rts_limit', 1, 255)
+    st = {'sent': 0, 'done': False, 'eoma': 0, 'cts': 0, 'eoms_sent': False}
+
+    def send_eoms():
+        st['eoms_sent'] = True
+        inject(w, n, tp22.PF_CM, tp22.cm_frame(tp22.EOMS, session, L, nseg, 0, 0, pgn0))
+
+    def send_dts(count, first):
+        def one(i):
+            st['sent'] = first + i
+            inject(w, n, tp22.PF_DT, tp22.dt_frame(session, first + i, payload))
+            if i + 1 < count:
+                w.after(ex.fresh_real('dt_gap', DTGAP[0], DTGAP[1]), lambda: one(i + 1), 'peer')
+            elif st['sent'] == nseg:
+                w.after(ex.fresh_real('dt_gap', DTGAP[0], DTGAP[1]), send_eoms, 'peer')
+        w.after(ex.fresh_real('reply', REPLY[0], REPLY[1]), lambda: one(0), 'peer')
+
+    def on_frame(f):
+        if f['src'] != 'S':
+            return
+        k = kind_of(f)
+        d = f['data']
+        if c03:
+            ex.claim('c03.fd.legal_length', len(d) in tp22.FD_LENGTHS and f['fd'] is True, {'len': len(d)})
+        if k != 'cm' or st['done']:
+            ex.claim(tag + '.fd.resp.unexpected_frame', False, {'data': d[:12]})
+            return
+        cm = cm_fields(d)
+        ctrl = concretize(cm['ctrl'])
+        if ctrl == tp22.CTS:
+            st['cts'] += 1
+            remaining = nseg - st['sent']
+            if c09:
+                ex.claim('c09.fd.resp.grant_le_rts_limit', cm['b7'] <= limit)
+                ex.claim('c09.fd.resp.grant_le_own_max', cm['b7'] <= wa)
+                ex.claim('c09.fd.resp.grant_le_remaining', cm['b7'] <= remaining, {'remaining': remaining})
+            if c03:
+                frame_id_claim(ex, 'c03.fd.resp.cts.id', f, 7, tp22.PF_CM, P_ADDR, S_ADDR)
+                ex.claim('c03.fd.resp.cts.fields', sym_and(len(d) == 12, cm['session'] == session, cm['b7'] >= 1, cm['seg'] == st['sent'] + 1, cm['pgn'] == pgn0),
+                         {'data': d, 'sent': st['sent']})
+            ex.claim(tag + '.fd.resp.cts_while_data_outstanding', remaining > 0)
+            cnt = max(0, min(concretize(cm['b7']), remaining))
+            if cnt > 0:
+                send_dts(cnt, st['sent'] + 1)
+        elif ctrl == tp22.EOMA:
+            st['eoma'] += 1
+            st['done'] = True
+            ex.claim(tag + '.fd.resp.eoma_after_eoms', st['eoms_sent'] is True and st['sent'] == nseg)
+            if c03:
+                frame_id_claim(ex, 'c03.fd.resp.eoma.id', f, 7, tp22.PF_CM, P_ADDR, S_ADDR)
+                ex.claim('c03.fd.resp.eoma.fields', sym_and(len(d) == 12, cm['session'] == session, cm['size'] == L, cm['seg'] == nseg, cm['pgn'] == pgn0), {'data': d})
+        else:
+            ex.claim(tag + '.fd.resp.unexpected_frame', False, {'data': d[:12]})
+
+    w.frame_hooks.append(on_frame)
+    w.run(until=T('1/100'))
+    inject(w, n, tp22.PF_CM, tp22.cm_frame(tp22.RTS, session, L, nseg, limit, 0, pgn0))
+    w.run(until=w.now + T(3) + T('4/10') * (nseg + 1))
+    ex.claim(tag + '.fd.resp.acknowledged', st['eoma'] == 1, {'eoma': st['eoma'], 'sent': st['sent'], 'cts': st['cts']})
+    if c03:
+        ex.claim('c03.fd.resp.delivered_once', len(rx) == 1, {'deliveries': len(rx)})
+        if rx:
+            ex.claim('c03.fd.resp.delivered_message', sym_and(rx[0]['sa'] == P_ADDR, (rx[0]['pgn'] // 256) == dp * 256 + pf, sym_eq_seq(rx[0]['data'], payload)))
+    ex.claim('job_thread_alive', n.job_alive() and not n.notify_errors, {'errors': [repr(e) for e in n.notify_errors][:2]})
+    ex.observe('bus', [[f['id'], f['data']] for f in w.log])
+    ex.witness()
+
+
+# --------------------------------------------------------------------------- BAM
+def h_orig_bam(ex, prop, L, interval=None):
+    c03, c09 = prop == 'C03', prop == 'C09'
+    tag = 'c03' if c03 else 'c09'
+    w, n, ca, rx = mk_world(ex, 1, bam_interval=interval)
+    dp = ex.fresh_int('dp', 0, 1)
+    prio = ex.fresh_int('prio', 0, 7)
+    pf = ex.fresh_int('pf', 240, 255)
+    ge = ex.fresh_int('ge', 0, 255)
+    payload = sym_payload(ex, 'b', L)
+    nseg = tp22.nsegments(L)
+    pgn = dp * 65536 + pf * 256 + ge
+    ivl = Fraction(interval) if interval is not None else Fraction(0.010)
+    w.run(until=T('1/100'))
+    r = ca.send_pgn(dp, pf, ge, prio, list(payload))
+    ex.claim('accepted', r is True)
+    w.run(until=w.now + T(1) + (ivl + EPS[1]) * (nseg + 2))
+    frames = [f for f in w.log if f['src'] == 'S']
+    ex.claim(tag + '.fd.bam.frame_count', len(frames) == nseg + 2, {'frames': len(frames), 'nseg': nseg})
+    if len(frames) == nseg + 2:
+        cm = cm_fields(frames[0]['data'])
+        sess = concretize(cm['session'])
+        if c03:
+            for f in frames:
+                ex.claim('c03.fd.legal_length', len(f['data']) in tp22.FD_LENGTHS and f['fd'] is True, {'len': len(f['data'])})
+            frame_id_claim(ex, 'c03.fd.bam.cm.id', frames[0], prio, tp22.PF_CM, 255, S_ADDR)
+            ex.claim('c03.fd.bam.cm.fields', sym_and(len(frames[0]['data']) == 12, cm['ctrl'] == tp22.BAM, cm['size'] == L, cm['seg'] == nseg, cm['pgn'] == pgn), {'data': frames[0]['data']})
+            for i, f in enumerate(frames[1:-1], 1):
+                frame_id_claim(ex, 'c03.fd.bam.dt.id', f, 7, tp22.PF_DT, 255, S_ADDR)
+                ex.claim('c03.fd.bam.dt.bytes', sym_eq_seq(f['data'], tp22.dt_frame(sess, i, payload)), {'seg': i})
+            e = cm_fields(frames[-1]['data'])
+            frame_id_claim(ex, 'c03.fd.bam.eoms.id', frames[-1], 7, tp22.PF_CM, 255, S_ADDR)
+            ex.claim('c03.fd.bam.eoms.fields', sym_and(e['ctrl'] == tp22.EOMS, e['session'] == sess, e['size'] == L, e['seg'] == nseg, e['pgn'] == pgn))
+        if c09:
+            for a, b in zip(frames[:-1], frames[1:-1]):
+                gap = b['t'] - a['t']
+                ex.claim('c09.fd.bam.min_spacing', gap >= ivl, {'interval': str(ivl)})
+                ex.claim('c09.fd.bam.max_spacing', sym_and(gap <= ivl + EPS[1], gap <= Fraction(2, 10)), {'interval': str(ivl)})
+    ex.claim('job_thread_alive', n.job_alive())
+    ex.observe('bus', [[f['id'], f['data'], f['t']] for f in w.log])
+    ex.witness()
+
+
+def h_resp_bam(ex, prop, L, session=1):
+    w, n, ca, rx = mk_world(ex, 1)
+    dp = ex.fresh_int('dp', 0, 1)
+    pf = ex.fresh_int('pf', 240, 255)
+    ge = ex.fresh_int('ge', 0, 255)
+    pgn = dp * 65536 + pf * 256 + ge
+    payload = sym_payload(ex, 'b', L)
+    nseg = tp22.nsegments(L)
+    w.run(until=T('1/100'))
+    w.inject(n, tp21.can_id(7, tp22.PF_CM, 255, P_ADDR), tp22.cm_frame(tp22.BAM, session, L, nseg, 0xFF, 0, pgn), fd=True)
+
+    def one(i):
+        if i <= nseg:
+            w.inject(n, tp21.can_id(7, tp22.PF_DT, 255, P_ADDR), tp22.dt_frame(session, i, payload), fd=True)
+            w.after(ex.fresh_real('bam_gap', BAMGAP[0], BAMGAP[1]), lambda: one(i + 1), 'peer')
+        else:
+            w.inject(n, tp21.can_id(7, tp22.PF_CM, 255, P_ADDR), tp22.cm_frame(tp22.EOMS, session, L, nseg, 0, 0, pgn), fd=True)
+    w.after(ex.fresh_real('bam_gap', BAMGAP[0], BAMGAP[1]), lambda: one(1), 'peer')
+    w.run(until=w.now + T(2) + T('2/10') * (nseg + 1))
+    ex.claim('c03.fd.bam.rx.silent', len(w.log) == 0, {'frames': len(w.log)})
+    ex.claim('c03.fd.bam.rx.delivered_once', len(rx) == 1, {'deliveries': len(rx)})
+    if rx:
+        ex.claim('c03.fd.bam.rx.delivered_message', sym_and(rx[0]['sa'] == P_ADDR, rx[0]['pgn'] == pgn, sym_eq_seq(rx[0]['data'], payload)))
+    ex.claim('job_thread_alive', n.job_alive() and not n.notify_errors)
+    ex.witness()
 
 
 def jobs(prop, tier):
-    return []
+    out = []
+    q = tier == 'quick'
+
+    def J(h, wall=300, **p):
+        p['prop'] = prop
+        out.append(Job(prop, 'tpref22:' + h, p, W=40, wall=wall if q else 1800, max_paths=200000, validate=1))
+
+    Ls = [61, 120, 121, 180, 181, 245] if q else [61, 62, 119, 120, 121, 179, 180, 181, 240, 241, 299, 300, 301, 360, 421, 480]
+    for L in Ls:
+        J('h_orig_cmdt', L=L)
+        J('h_resp_cmdt', L=L)
+        if prop == 'C03':
+            J('h_orig_bam', L=L)
+            J('h_resp_bam', L=L)
+    J('h_resp_cmdt', L=181, session=7)
+    J('h_orig_cmdt', L=181, holds=[1, 0, 1])
+    if prop == 'C03':
+        J('h_resp_bam', L=121, session=3)
+    if prop == 'C09':
+        for L in ([121, 181] if q else [61, 121, 181, 301]):
+            for ivl in ([None, '1/20'] if q else [None, '1/100', '1/20', '1/10', '19/100']):
+                J('h_orig_bam', L=L, interval=ivl)
+            for ivl in (['1/100'] if q else ['1/1000', '1/100', '1/20']):
+                J('h_orig_cmdt', L=L, interval=ivl)
+    return out
